@@ -34,6 +34,15 @@ def layouts(quick):
     for p1 in POST[:6]:      # two postfix forms in a row (projection of projection, flatten after projection, ...)
         for p2 in POST[:6]:
             L.append(('post-post', [['Identifier']] + [[k] for k in p1] + [[k] for k in p2] + [INFIX_ALL + ['Identifier'], ['Identifier']]))
+    # an expression reference as a function argument: its operand extends over every operator up to ',' or ')' (nud of '&' parses with power 0)
+    call = [['Identifier'], ['Lparen']]
+    L.append(('expref-op', call + [['Ampersand'], ['Identifier', 'Not', 'At'], INFIX_ALL + ['Identifier'], ['Identifier'], ['Rparen']]))
+    L.append(('expref-op-op', call + [['Ampersand'], ['Identifier'], INFIX_ALL, ['Identifier'], INFIX_ALL, ['Identifier'], ['Rparen']]))
+    L.append(('expref-op-comma', call + [['Ampersand'], ['Identifier'], INFIX_ALL, ['Identifier'], ['Comma'], ['Identifier', 'Ampersand'], ['Identifier', 'Rparen'], ['Rparen', 'Pipe'], ['Identifier', 'Rparen']]))
+    L.append(('expref-second', call + [['Identifier'], ['Comma'], ['Ampersand'], ['Identifier', 'Not'], INFIX_ALL + ['Identifier'], ['Identifier'], ['Rparen']]))
+    L.append(('expref-then-op', call + [['Ampersand'], ['Identifier'], ['Rparen'], INFIX_ALL + ['Flatten'], ['Identifier', 'Pipe', 'Flatten'], ['Identifier']]))
+    for p in POST[:6]:
+        L.append(('expref-post ' + ' '.join(p), call + [['Ampersand'], ['Identifier']] + [[k] for k in p] + [INFIX_ALL + ['Rparen'], ['Identifier', 'Rparen'], ['Rparen']]))
     return L
 
 def chains(quick):
@@ -99,7 +108,7 @@ def run(run):
     N = 3 if quick else 4; W = 2 if quick else 3
     lays = layouts(quick)
     run.bounds = {'token sequences': f'every sequence of <= {N} tokens over all 28 kinds; {len(lays)} structured layouts with symbolic operator / operand positions (every ordered pair of binary operators '
-                                     f'around symbolic operands, prefix-not combinations, every postfix form followed and preceded by every operator, pairs of postfix forms: sentences of 5..10 tokens); '
+                                     f'around symbolic operands, prefix-not combinations, expression-reference arguments followed by every operator / postfix form, every postfix form followed and preceded by every operator, pairs of postfix forms: sentences of 5..10 tokens); '
                                      f'{len(CONTEXTS)} contexts around windows of {W} fully symbolic tokens',
                   'oracle': 'reference precedence-climbing parser (binding powers pipe<or<and<comparison<flatten<wildcard/filter<dot<not<bracket<call, left-assoc, projection stop below 10)'}
     run.outside = ['sentences that match no layout and are longer than the full enumeration bound', 'sentences accepted only through a recorded C03 deviation (no reference tree exists for a non-sentence)']
